@@ -329,7 +329,7 @@ def run(F, rep):
         for bi, b in enumerate(f.blocks):
             for s in b["stmts"]:
                 if s["k"] == "assign" and not s["pl"]["p"] and f.local_names().get(s["pl"]["l"]) and f.locals[s["pl"]["l"]]["ty"] == "u32" and \
-                        s["rv"]["k"] in ("bin", "checked", "use") and _is_version_word(ex or Exprs(f), s["rv"]):
+                        s["rv"]["k"] in ("bin", "binop", "checked", "use") and _is_version_word(ex or Exprs(f), s["rv"]):
                     ex = ex or Exprs(f)
                     e = ex.rvalue(s["rv"])
                     nav += 1
